@@ -118,6 +118,9 @@ func (c *Ctx) Distinct(set, sig string) { c.res.addSet(set, sig) }
 // Count adds n to a named counter.
 func (c *Ctx) Count(key string, n int) { c.res.Counters[key] += int64(n) }
 
+// AddEvaluations counts additional executions performed inside one case (e.g. one start per fault site).
+func (c *Ctx) AddEvaluations(n int) { c.res.Evaluations += n }
+
 // Sample keeps up to a few written-out cases per worker.
 func (c *Ctx) Sample(v any) {
 	if len(c.res.Samples) < 3 {
